@@ -126,7 +126,7 @@ fn check(c: &Case, ctx: &Ctx) -> Outcome {
             // the output prefix may or may not carry the .skf suffix already
             // the output prefix may carry the .skf suffix already, or contain a dot of its own
             // or name a file in another directory whose name has a dot
-            let prefix = ["m", "m.skf", "m.v1", "out.d/m"][(samples.len() + k / 2) % 4];
+            let prefix = ["m", "m.skf", "m.v1", "out.d/m", "m.skf.skf"][(samples.len() + k / 2) % 5];
             std::fs::create_dir_all(dir.join("out.d")).map_err(|e| Outcome::Infra(e.to_string()))?;
             args.extend_from_slice(&["-o", prefix]);
             let o = run_ska(ctx, &dir, &args);
